@@ -24,6 +24,7 @@ func wsFunc(p *Prog, recv, name string) *ssa.Function {
 
 func init() {
 	register("C14", func(c *Ctx) {
+		c14ReplayOrderAndTemp(c)
 		_ = c.P
 		c.Explain = "Durability orderings of the consensus WAL decided on CFG/SSA of consensus/walstore: (sync-then-ack) the synced offset and committed:true are produced only after waitGroup.Wait() with syncErr == nil; (abort-repairs) both failure arms of appendSync truncate back to the last synced offset before returning; " +
 			"(index-after-commit) the live index is mutated only by addLiveEntry/deleteLiveHeight, reached from Flush only on the committed branch and from replay; (watermark-order) Write → Sync → Close → Rename → syncDir with each error returning first, and the watermark is durable before obsolete files are removed; " +
@@ -924,5 +925,80 @@ func c14CleanupAndSeq(c *Ctx) {
 		}
 	} else {
 		c.und("seq-per-record", "flushLocked", "", "anchor not found")
+	}
+}
+
+// c14ReplayOrderAndTemp: two shape conditions of recovery found through seeded changes C13-N and C14-N.
+// (replay-order) what LoadAllEntries hands to the replay is the log order: no function of the store sorts a slice of WAL
+// entries (only the list of heights may be sorted) — grouping a height's entries by round makes the replay see a late
+// round-0 prevote before the round skip it followed, lock on it and contradict the votes sent before the crash.
+// (temp-never-read) the watermark's temporary file is written and renamed, never read: every os.ReadFile/Open of the store
+// reads a path that does not derive from the ".tmp" name — a torn temp file left by a crash during the very first watermark
+// write would otherwise stop the validator from starting (strict validation) or be trusted (lax validation).
+func c14ReplayOrderAndTemp(c *Ctx) {
+	p := c.P
+	nSort, nRead := 0, 0
+	for _, fn := range p.sortedFuncs() {
+		if pkgRelOf(fn) != "consensus/walstore" || fn.Origin() != nil || strings.HasSuffix(p.Pos(fnPos(fn)), "_test.go") {
+			continue
+		}
+		for _, g := range withAnons(fn) {
+			for _, s := range sitesOf(g) {
+				if s.Callee == nil {
+					continue
+				}
+				cal := s.Callee
+				if cal.Origin() != nil {
+					cal = cal.Origin()
+				}
+				if cal.Pkg == nil {
+					continue
+				}
+				pk := cal.Pkg.Pkg.Path()
+				if (pk == "slices" || pk == "sort") && strings.HasPrefix(cal.Name(), "Sort") || pk == "sort" && (cal.Name() == "Slice" || cal.Name() == "SliceStable" || cal.Name() == "Stable") {
+					nSort++
+					args := s.Args()
+					bad := len(args) > 0 && strings.Contains(args[0].Type().String(), "wal.Entry")
+					c.check(!bad, "replay-order", qname(fn)+": "+pk+"."+cal.Name(), p.Pos(s.Pos()), "only heights are sorted; entries keep the order in which they were logged", "the store sorts a slice of WAL entries: the replay no longer sees the messages in the order in which they were processed before the crash (a late vote of an earlier round is replayed before the round skip it arrived after)")
+				}
+				if pk == "os" && (cal.Name() == "ReadFile" || cal.Name() == "Open" || cal.Name() == "OpenFile") && len(s.Args()) > 0 {
+					// OpenFile for writing the temp file is the writer's business
+					if cal.Name() == "OpenFile" && strings.Contains(qname(fn), "writePruneWatermark") {
+						continue
+					}
+					nRead++
+					tmp := false
+					var scan func(v ssa.Value, d int)
+					scan = func(v ssa.Value, d int) {
+						for x := range backSlice(v) {
+							if k, ok := x.(*ssa.Const); ok && k.Value != nil && strings.Contains(k.Value.ExactString(), ".tmp") {
+								tmp = true
+							}
+							// a path handed in as a parameter: what the callers pass
+							if pa, ok := x.(*ssa.Parameter); ok && d < 2 && pa.Parent() != nil {
+								for i, q := range pa.Parent().Params {
+									if q != pa {
+										continue
+									}
+									for _, cs := range p.callersOf(pa.Parent()) {
+										if a := cs.Args(); i < len(a) {
+											scan(a[i], d+1)
+										}
+									}
+								}
+							}
+						}
+					}
+					scan(s.Args()[0], 0)
+					c.check(!tmp, "temp-never-read", qname(fn)+": os."+cal.Name(), p.Pos(s.Pos()), "no read of the watermark's temporary file", "the store reads the watermark's temporary file: after a crash during a watermark write that file can be torn — recovery must ignore it (the renamed file, or none, is the truth)")
+				}
+			}
+		}
+	}
+	if nSort == 0 {
+		c.ok("replay-order", "consensus/walstore", "", "no sort call in the store")
+	}
+	if nRead == 0 {
+		c.und("temp-never-read", "consensus/walstore", "", "no file read found in the store (watermark loader renamed?)")
 	}
 }
